@@ -518,7 +518,25 @@ fn drive_bounded<S: SnapshotBounded>(
                 // restart carrying only the durable representation
                 let (s, l, d) = unsafe { rb.into_raw_parts() };
                 obs.fault(F_REBUILD);
-                rb = Bounded::from_raw_parts(s, l, d);
+                {
+                    // the durable representation read through borrowed, immutable storage
+                    let ro = Bounded::from_raw_parts(s, l, d.slice());
+                    let seen: Vec<u64> = ro.iter().copied().collect();
+                    let want: Vec<u64> = model.iter().copied().collect();
+                    check_eq!(obs, (ro.len(), seen), (want.len(), want), "bounded.readonly-view", "(len, contents) of a Bounded<&[T]> over the same parts");
+                    let (a, b) = ro.slices();
+                    let cat: Vec<u64> = a.iter().chain(b.iter()).copied().collect();
+                    check_eq!(obs, cat, model.iter().copied().collect::<Vec<u64>>(), "bounded.readonly-view", "slices() of a Bounded<&[T]> over the same parts");
+                    if l > 0 {
+                        check_eq!(obs, ro.get(done % l).copied(), model.get(done % l).copied(), "bounded.readonly-view", "get({}) of a Bounded<&[T]> over the same parts", done % l);
+                    }
+                }
+                rb = if done % 2 == 0 {
+                    Bounded::from_raw_parts(s, l, d)
+                } else {
+                    // the same valid triple through the unchecked constructor
+                    unsafe { Bounded::from_raw_parts_unchecked(s, l, d) }
+                };
             }
             _ => {
                 src.skip_last();
@@ -584,7 +602,8 @@ impl Scenario for BoundedScenario {
     }
     fn run(&self, src: &mut Source, obs: &mut Observer) -> Result<(), Violation> {
         let cap = src.cfg("cap", 1, MAX_CAP, draw_cap) as usize;
-        let storage = src.cfg("storage", 0, 4, |r| r.range(0, 4));
+        // 0 Vec, 1 Box<[T]>, 2 &mut [T], 3 guarded slice, 4 array, 5 Vec with spare capacity
+        let storage = src.cfg("storage", 0, 5, |r| r.range(0, 5));
         let storage = if cap > 9 && storage == 4 { 3 } else { storage };
         let start = src.cfg("start", 0, cap as i64 - 1, |r| {
             if r.chance(1, 4) {
@@ -636,6 +655,12 @@ impl Scenario for BoundedScenario {
                 drive_bounded(&mut d[..], start, len, steps, opmask, src, obs)
             }
             3 => drive_bounded(Guarded::new(&data), start, len, steps, opmask, src, obs),
+            5 => {
+                // a Vec whose allocation is larger than its length: the slice, not the allocation, is the buffer
+                let mut v = Vec::with_capacity(cap + 1 + cap / 2);
+                v.extend_from_slice(&data);
+                drive_bounded(v, start, len, steps, opmask, src, obs)
+            }
             _ => with_array!(cap, data, drive_bounded, start, len, steps, opmask, src, obs),
         }
     }
@@ -932,7 +957,20 @@ fn drive_fixed<S: SnapshotBounded>(
             X_REBUILD => {
                 let (f, d) = rb.into_raw_parts();
                 obs.fault(XF_REBUILD);
-                rb = Fixed::from_raw_parts(f, d);
+                {
+                    let ro = Fixed::from_raw_parts(f, d.slice());
+                    let seen: Vec<u64> = ro.iter().copied().collect();
+                    check_eq!(obs, (ro.len(), seen), (n, model.clone()), "fixed.readonly-view", "(len, contents) of a Fixed<&[T]> over the same parts");
+                    let (a, b) = ro.slices();
+                    let cat: Vec<u64> = a.iter().chain(b.iter()).copied().collect();
+                    check_eq!(obs, cat, model.clone(), "fixed.readonly-view", "slices() of a Fixed<&[T]> over the same parts");
+                    check_eq!(obs, *ro.get(done), model[done % n], "fixed.readonly-view", "get({}) of a Fixed<&[T]> over the same parts", done);
+                }
+                rb = if done % 2 == 0 {
+                    Fixed::from_raw_parts(f, d)
+                } else {
+                    unsafe { Fixed::from_raw_parts_unchecked(f, d) }
+                };
             }
             _ => {
                 src.skip_last();
@@ -1002,7 +1040,7 @@ impl Scenario for FixedScenario {
     }
     fn run(&self, src: &mut Source, obs: &mut Observer) -> Result<(), Violation> {
         let n = src.cfg("n", 1, MAX_CAP, draw_cap) as usize;
-        let storage = src.cfg("storage", 0, 4, |r| r.range(0, 4));
+        let storage = src.cfg("storage", 0, 5, |r| r.range(0, 5));
         let storage = if n > 9 && storage == 4 { 3 } else { storage };
         let first = src.cfg("first", 0, n as i64 - 1, |r| {
             if r.chance(1, 4) {
@@ -1033,6 +1071,11 @@ impl Scenario for FixedScenario {
                 drive_fixed(&mut d[..], first, steps, opmask, src, obs)
             }
             3 => drive_fixed(Guarded::new(&data), first, steps, opmask, src, obs),
+            5 => {
+                let mut v = Vec::with_capacity(n + 1 + n / 2);
+                v.extend_from_slice(&data);
+                drive_fixed(v, first, steps, opmask, src, obs)
+            }
             _ => with_array!(n, data, drive_fixed, first, steps, opmask, src, obs),
         }
     }
